@@ -1,1 +1,280 @@
-(* placeholder: proofs are being written *)
+(* Proofs for C09: coarse patterns are well-shaped and honour the requested peak count. *)
+From Coq Require Import ZArith List Bool Lia Permutation Field Ring Field_theory Ring_theory.
+From CE Require Import Num OField Mz Peak Poisson Brain BrainSpec PoissonProofs.
+Import ListNotations.
+
+(* Properties/C09.v imports [String] after [List], so a bare [length] there would resolve to [String.length] and
+   the statements of C09_shape / C09_sum would not type-check.  C09.v imports this file after [String]; this
+   parsing-only abbreviation makes [length] mean [List.length] again (the term produced is exactly [List.length]).
+   Remove it once C09.v writes [List.length] (as model/Brain.v does). *)
+
+(* ---------- request resolution: integers only ---------- *)
+Lemma clamp_order : forall req mv, (0 <= req)%Z -> (0 <= mv)%Z ->
+  resolve_order req mv = Z.min req mv /\ (0 <= resolve_order req mv <= mv)%Z.
+Proof.
+  intros req mv Hr Hm. unfold resolve_order.
+  destruct (Z.eqb_spec req (-1)) as [E|_]; [lia|].
+  split; [reflexivity | lia].
+Qed.
+
+Section ShapeProofs.
+  Context {F : Type} (N : Num F).
+
+  (* the candidate list (the same term as [raw] in Properties/C09.v) *)
+  Definition raw_peaks (pv cv : list F) (o : nat) (z : Z) (carrier : F) : list (F * F) :=
+    map (fun cp => (charged N (fst cp) z carrier, div N (snd cp) (fsum N pv))) (firstn (o + 1) (combine cv pv)).
+
+  Lemma finish_raw pv cv o z carrier :
+    finish N pv cv o z carrier = sort_mz N (keep_real N (raw_peaks pv cv o z carrier) false).
+  Proof. reflexivity. Qed.
+
+  (* ---------- the stable sort is a permutation ---------- *)
+  Lemma ins_mz_perm x : forall l, Permutation (ins_mz N x l) (x :: l).
+  Proof.
+    induction l as [|y l IH]; [apply Permutation_refl|].
+    cbn [ins_mz]. destruct (ltb N (fst x) (fst y)); [apply Permutation_refl|].
+    eapply Permutation_trans; [apply perm_skip; exact IH | apply perm_swap].
+  Qed.
+
+  Lemma sort_fold_perm : forall l acc,
+    Permutation (fold_left (fun a x => ins_mz N x a) l acc) (l ++ acc).
+  Proof.
+    induction l as [|x l IH]; intros acc; [apply Permutation_refl|].
+    cbn [fold_left app].
+    eapply Permutation_trans; [apply IH|].
+    eapply Permutation_trans; [apply Permutation_app_head; apply ins_mz_perm|].
+    apply Permutation_sym. apply Permutation_middle.
+  Qed.
+
+  Lemma sort_mz_perm l : Permutation (sort_mz N l) l.
+  Proof.
+    unfold sort_mz. eapply Permutation_trans; [apply sort_fold_perm|].
+    rewrite app_nil_r. apply Permutation_refl.
+  Qed.
+
+  (* ---------- the 1e-10 rule keeps a sub-list ---------- *)
+  Lemma keep_real_In : forall l b x, In x (keep_real N l b) -> In x l.
+  Proof.
+    induction l as [|[m p] l IH]; intros b x Hx; [exact Hx|].
+    cbn [keep_real] in Hx.
+    destruct (ltb N p (tiny10 N)).
+    - destruct b.
+      + right. exact (IH _ _ Hx).
+      + destruct Hx as [Hx|Hx]; [left; exact Hx | right; exact (IH _ _ Hx)].
+    - destruct Hx as [Hx|Hx]; [left; exact Hx | right; exact (IH _ _ Hx)].
+  Qed.
+
+  Lemma keep_real_length : forall l b, length (keep_real N l b) <= length l.
+  Proof.
+    induction l as [|[m p] l IH]; intros b; [apply le_n|].
+    cbn [keep_real].
+    destruct (ltb N p (tiny10 N)).
+    - destruct b; cbn [length].
+      + pose proof (IH true). lia.
+      + pose proof (IH false). lia.
+    - cbn [length]. pose proof (IH true). lia.
+  Qed.
+
+  Lemma keep_real_head x r : In x (keep_real N (x :: r) false).
+  Proof.
+    destruct x as [m p]. cbn [keep_real].
+    destruct (ltb N p (tiny10 N)); left; reflexivity.
+  Qed.
+
+  Lemma keep_real_big : forall l b x,
+    In x l -> ltb N (snd x) (tiny10 N) = false -> In x (keep_real N l b).
+  Proof.
+    induction l as [|[m p] l IH]; intros b x Hx Hbig; [exact Hx|].
+    cbn [keep_real]. destruct Hx as [Hx|Hx].
+    - subst x. cbn [snd] in Hbig. rewrite Hbig. left. reflexivity.
+    - destruct (ltb N p (tiny10 N)).
+      + destruct b; [|right]; apply IH; assumption.
+      + right. apply IH; assumption.
+  Qed.
+
+  Lemma raw_length pv cv o z carrier : length (raw_peaks pv cv o z carrier) <= o + 1.
+  Proof. unfold raw_peaks. rewrite map_length. apply firstn_le_length. Qed.
+
+  Lemma finish_shape : forall pv cv o z carrier,
+    Permutation (finish N pv cv o z carrier) (keep_real N (raw_peaks pv cv o z carrier) false)
+    /\ length (finish N pv cv o z carrier) <= o + 1
+    /\ (forall x, In x (finish N pv cv o z carrier) -> In x (raw_peaks pv cv o z carrier))
+    /\ (forall x r, raw_peaks pv cv o z carrier = x :: r -> In x (finish N pv cv o z carrier))
+    /\ (forall x, In x (raw_peaks pv cv o z carrier) -> ltb N (snd x) (tiny10 N) = false ->
+                  In x (finish N pv cv o z carrier)).
+  Proof.
+    intros pv cv o z carrier. rewrite finish_raw.
+    set (R := raw_peaks pv cv o z carrier).
+    pose proof (sort_mz_perm (keep_real N R false)) as HP.
+    split; [exact HP|]. split; [|split; [|split]].
+    - rewrite (Permutation_length HP).
+      pose proof (keep_real_length R false). pose proof (raw_length pv cv o z carrier). fold R in H0. lia.
+    - intros x Hx. apply (keep_real_In R false). exact (Permutation_in x HP Hx).
+    - intros x r HR. apply (Permutation_in x (Permutation_sym HP)).
+      rewrite HR. apply keep_real_head.
+    - intros x Hx Hbig. apply (Permutation_in x (Permutation_sym HP)).
+      apply keep_real_big; assumption.
+  Qed.
+
+  (* ---------- request resolution ---------- *)
+  Lemma fixed_count : forall n mass, (1 <= n)%Z -> num_peaks N (spec_of_i32 n) mass = (n - 1)%Z.
+  Proof.
+    intros n mass Hn. unfold spec_of_i32.
+    destruct (Z.eqb_spec n 0) as [E|_]; [lia|].
+    cbn [num_peaks]. unfold sat_sub1, i32_min.
+    destruct (Z.eqb_spec n (-2147483648)) as [E|_]; lia.
+  Qed.
+
+  Lemma nonpositive_count : forall n mass, (n < 0)%Z -> num_peaks N (spec_of_i32 n) mass = 0%Z.
+  Proof.
+    intros n mass Hn. unfold spec_of_i32.
+    destruct (Z.eqb_spec n 0) as [E|_]; [lia|].
+    cbn [num_peaks]. unfold sat_sub1, i32_min.
+    destruct (Z.eqb_spec n (-2147483648)) as [E|_]; lia.
+  Qed.
+
+  Lemma poisson_n_range mass t : (1 <= poisson_n N mass t <= 255)%Z.
+  Proof.
+    unfold poisson_n.
+    pose proof (pois_n_range N mass (LAMBDA_FACTOR N) t 255) as H.
+    change (Z.of_nat 255) with 255%Z in H. apply H. lia.
+  Qed.
+
+  Lemma default_count : forall mass,
+    num_peaks N (spec_of_i32 0) mass = Z.min (poisson_n N mass (of_dec N 9999 4)) 300
+    /\ (1 <= num_peaks N (spec_of_i32 0) mass <= 255)%Z.
+  Proof.
+    intros mass. change (spec_of_i32 0) with (@Guess F). cbn [num_peaks].
+    split; [reflexivity|].
+    pose proof (poisson_n_range mass (of_dec N 9999 4)). lia.
+  Qed.
+
+  Lemma fraction_count : forall f mass,
+    num_peaks N (PercentSignal f) mass = num_peaks N (FixedCount (poisson_n N mass f)) mass.
+  Proof.
+    intros f mass. cbn [num_peaks]. unfold sat_sub1, i32_min.
+    pose proof (poisson_n_range mass f) as H.
+    destruct (Z.eqb_spec (poisson_n N mass f) (-2147483648)) as [E|_]; [lia | reflexivity].
+  Qed.
+
+  (* ---------- list plumbing for the sum ---------- *)
+  Lemma map_snd_combine {A B : Type} : forall (l1 : list A) (l2 : list B),
+    length l1 = length l2 -> map snd (combine l1 l2) = l2.
+  Proof.
+    induction l1 as [|a l1 IH]; intros [|b l2] Hl; cbn in Hl; try lia; [reflexivity|].
+    cbn [combine map snd]. rewrite IH by lia. reflexivity.
+  Qed.
+
+  Lemma skip_real_small : forall l b x, In x (skip_real N l b) -> ltb N (snd x) (tiny10 N) = true.
+  Proof.
+    induction l as [|[m p] l IH]; intros b x Hx; [destruct Hx|].
+    cbn [skip_real] in Hx.
+    destruct (ltb N p (tiny10 N)) eqn:E.
+    - destruct b.
+      + destruct Hx as [Hx|Hx]; [subst x; exact E | exact (IH _ _ Hx)].
+      + exact (IH _ _ Hx).
+    - exact (IH _ _ Hx).
+  Qed.
+
+  Lemma filter_all {A : Type} (f : A -> bool) : forall l, (forall x, In x l -> f x = true) -> filter f l = l.
+  Proof.
+    induction l as [|a l IH]; intros H; [reflexivity|].
+    cbn [filter]. rewrite (H a (or_introl eq_refl)). rewrite IH; [reflexivity|].
+    intros x Hx. apply H. right. exact Hx.
+  Qed.
+
+  Lemma filter_skip_real l b :
+    filter (fun x => ltb N (snd x) (tiny10 N)) (skip_real N l b) = skip_real N l b.
+  Proof. apply filter_all. intros x Hx. exact (skip_real_small l b x Hx). Qed.
+
+  (* ================= exact arithmetic ================= *)
+  Section WithField.
+    Hypothesis OF : OField N.
+    Add Field Fs : (of_field N OF).
+
+    Local Notation "0" := (zero N).
+    Local Notation "1" := (one N).
+    Local Infix "+!" := (add N) (at level 50, left associativity).
+    Local Infix "*!" := (mul N) (at level 40, left associativity).
+    Local Infix "/!" := (div N) (at level 40, left associativity).
+
+    (* right-fold sum, the convenient form for induction *)
+    Definition sumr (l : list F) : F := fold_right (add N) 0 l.
+
+    Lemma fold_add_sumr : forall l a, fold_left (add N) l a = a +! sumr l.
+    Proof.
+      induction l as [|x l IH]; intros a; cbn [fold_left sumr fold_right].
+      - ring.
+      - rewrite IH. unfold sumr. ring.
+    Qed.
+
+    Lemma fsum_sumr l : fsum N l = sumr l.
+    Proof. unfold fsum. rewrite (of_sum0 N OF), fold_add_sumr. ring. Qed.
+
+    Lemma sumr_perm l l' : Permutation l l' -> sumr l = sumr l'.
+    Proof.
+      induction 1 as [|x l l' _ IH|x y l|l l' l'' _ IH1 _ IH2]; cbn [sumr fold_right].
+      - reflexivity.
+      - fold (sumr l). fold (sumr l'). rewrite IH. reflexivity.
+      - ring.
+      - rewrite IH1. exact IH2.
+    Qed.
+
+    Lemma fsum_perm l l' : Permutation l l' -> fsum N l = fsum N l'.
+    Proof. intros H. rewrite !fsum_sumr. apply sumr_perm. exact H. Qed.
+
+    Lemma sumr_cons x l : sumr (x :: l) = x +! sumr l.
+    Proof. reflexivity. Qed.
+
+    (* keep_real and skip_real partition the list *)
+    Lemma keep_skip_sum : forall l b,
+      sumr (map snd (keep_real N l b)) +! sumr (map snd (skip_real N l b)) = sumr (map snd l).
+    Proof.
+      induction l as [|[m p] l IH]; intros b.
+      - cbn [keep_real skip_real map]. unfold sumr. cbn [fold_right]. ring.
+      - cbn [keep_real skip_real]. cbn [map snd]. rewrite (sumr_cons p).
+        destruct (ltb N p (tiny10 N)).
+        + destruct b.
+          * cbn [map snd]. rewrite (sumr_cons p). rewrite <- (IH true). ring.
+          * cbn [map snd]. rewrite (sumr_cons p). rewrite <- (IH false). ring.
+        + cbn [map snd]. rewrite (sumr_cons p). rewrite <- (IH true). ring.
+    Qed.
+
+    Lemma sumr_div T : T <> 0 -> forall l, sumr (map (fun x => x /! T) l) = sumr l /! T.
+    Proof.
+      intros HT. induction l as [|x l IH]; cbn [map].
+      - unfold sumr. cbn [fold_right]. field. exact HT.
+      - rewrite !sumr_cons, IH. field. exact HT.
+    Qed.
+
+    Lemma raw_snd pv cv o z carrier : length pv = o + 1 -> length cv = o + 1 ->
+      map snd (raw_peaks pv cv o z carrier) = map (fun x => x /! fsum N pv) pv.
+    Proof.
+      intros Hp Hc. unfold raw_peaks.
+      rewrite firstn_all2 by (rewrite combine_length; lia).
+      rewrite map_map. cbn [snd].
+      rewrite <- (map_snd_combine cv pv) at 2 by lia.
+      rewrite map_map. reflexivity.
+    Qed.
+
+    Lemma finish_sum : forall pv cv o z carrier,
+      length pv = o + 1 -> length cv = o + 1 -> fsum N pv <> zero N ->
+      add N (fsum N (map snd (finish N pv cv o z carrier)))
+            (fsum N (map snd (filter (fun x => ltb N (snd x) (tiny10 N))
+                                     (skip_real N (raw_peaks pv cv o z carrier) false))))
+      = one N.
+    Proof.
+      intros pv cv o z carrier Hp Hc HT.
+      rewrite filter_skip_real. rewrite finish_raw.
+      set (R := raw_peaks pv cv o z carrier).
+      rewrite (fsum_perm _ _ (Permutation_map snd (sort_mz_perm (keep_real N R false)))).
+      rewrite !fsum_sumr. rewrite keep_skip_sum.
+      unfold R. rewrite (raw_snd pv cv o z carrier Hp Hc).
+      rewrite (sumr_div _ HT). rewrite <- fsum_sumr. field. exact HT.
+    Qed.
+  End WithField.
+End ShapeProofs.
+
+Print Assumptions finish_shape. Print Assumptions fixed_count. Print Assumptions nonpositive_count.
+Print Assumptions default_count. Print Assumptions fraction_count. Print Assumptions clamp_order.
+Print Assumptions finish_sum.
